@@ -175,7 +175,9 @@ func streamFraming(tr *tracer.T, rng *rand.Rand) {
 	if rng.Intn(2) == 0 {
 		_, err = io.Copy(dst.File, &snapshot.Reader{Stream: stream}) // Reader.WriteTo
 	} else {
-		_, err = io.Copy(dst.File, struct{ io.Reader }{&snapshot.Reader{Stream: stream}}) // Reader.Read with pooled chunks
+		// Reader.Read with pooled chunks. Its contract: the caller's buffer holds a whole chunk (io.ErrShortBuffer
+		// otherwise), so read with a buffer of the largest chunk size, as a caller has to
+		_, err = io.CopyBuffer(struct{ io.Writer }{dst.File}, struct{ io.Reader }{&snapshot.Reader{Stream: stream}}, make([]byte, snapshot.DefaultSnapshotChunkSize))
 	}
 	if err != nil {
 		es = err.Error()
